@@ -264,20 +264,36 @@ def engine_gemhist(ctx, prop, r):
     r.stream_counts['gemhist histories (%d operations)' % steps] = tot
 
 def engine_race(ctx, prop, r):
-    """16 goroutines on shared and unshared Editors under the Go race detector; results must equal the sequential ones"""
+    """16 goroutines on shared and unshared Editors under the Go race detector; results must equal the sequential ones.
+    The test binary is built once and run in several fresh processes: lazily initialised package-level state is only
+    ever filled once per process, and whether the detector sees that one write racing is a matter of schedule
+    (measured: about one run in six misses it), so one process is not enough."""
     n = 200 if ctx.tier == 'quick' else 3000
-    env = dict(ctx.env, VERIF_SEED=str(ctx.seed), VERIF_RACE_CASES=str(n))
-    rc, o = ctx.sh('go test -race -tags verif -run TestRace -count=1 -timeout 40m . 2>&1 | tail -60', cwd=os.path.join(ctx.verif, 'harness'), env=env, timeout=3000)
-    r.evaluations += n * 17
-    r.stream_counts['race stress: cases x (1 sequential + 16 concurrent goroutines)'] = n * 17
-    if re.search(r'^ok\s', o, re.M) and 'DATA RACE' not in o and 'FAIL' not in o:
-        r.agreements += n * 17
-        r.distinct_nontrivial += n
-        r.samples.append({'stream': 'race', 'case': 'go test -race -tags verif -run TestRace (VERIF_RACE_CASES=%d, 16 goroutines, 8 shared sub-editors)' % n})
+    runs = 5 if ctx.tier == 'quick' else 8
+    hdir = os.path.join(ctx.verif, 'harness')
+    binp = os.path.join(ctx.work, 'race.test')
+    rc, o = ctx.sh('go test -race -tags verif -c -o %s . 2>&1 | tail -30' % binp, cwd=hdir, env=ctx.env, timeout=3000)
+    if not os.path.exists(binp):
+        r.engine_errors.append('race test binary did not build: ' + o[-600:]); return
+    bad = None
+    for k in range(runs):
+        env = dict(ctx.env, VERIF_SEED=str(ctx.seed + 1000 * k), VERIF_RACE_CASES=str(n))
+        rc, o = ctx.sh('%s -test.run TestRace -test.count=1 -test.timeout 40m 2>&1 | tail -60' % binp, cwd=hdir, env=env, timeout=3000)
+        r.evaluations += n * 17
+        if re.search(r'^PASS\s*$', o, re.M) and 'DATA RACE' not in o and 'FAIL' not in o:
+            r.agreements += n * 17
+            r.distinct_nontrivial += n
+        else:
+            bad = (k, o)
+            break
+    r.stream_counts['race stress: processes x cases x (1 sequential + 16 concurrent goroutines)'] = r.stream_counts.get('race stress: processes x cases x (1 sequential + 16 concurrent goroutines)', 0) + runs * n * 17
+    if bad is None:
+        r.samples.append({'stream': 'race', 'case': 'go test -race -tags verif -c; %d fresh processes of TestRace (VERIF_RACE_CASES=%d, 16 goroutines, 8 shared sub-editors)' % (runs, n)})
     else:
+        k, o = bad
         kind = 'data race reported by the Go race detector' if 'DATA RACE' in o else 'concurrent result differs from sequential result or shared state changed'
         r.failures.append({'id': 'race-%d' % ctx.seed, 'stream': 'race', 'in_guard': True, 'clause': '-',
-                           'case': 'cd /verif/harness && VERIF_SEED=%d VERIF_RACE_CASES=%d go test -race -tags verif -run TestRace -count=1 .' % (ctx.seed, n),
+                           'case': 'cd /verif/harness && go test -race -tags verif -c -o /tmp/race.test . && VERIF_SEED=%d VERIF_RACE_CASES=%d /tmp/race.test -test.run TestRace (repeat: detection depends on the schedule)' % (ctx.seed + 1000 * k, n),
                            'impl': kind + ': ' + o[-1500:]})
 
 class Ctx:
